@@ -82,56 +82,17 @@ func scenarioC20(c *Ctx) {
 		tasks := []requests.SigningTask{{MessageID: "orig-doc", File: "orig.txt", Payload: []byte("signed before the reinit")}}
 		A.ProposeBatch(0, "orig-batch", tasks)
 		A.RunToQuiescence(func(cands []int) int { return 0 }, nil)
-		log, _ := A.board().GetMessages(0)
-		if cf.withJunk {
-			// a message of another round in the middle of the dump
-			junk := storage.Message{DkgRoundID: "some-other-round", Event: "event_sig_proposal_confirm_by_participant", Data: []byte(`{"ParticipantId":0}`), SenderAddr: A.Users[0], Offset: 3}
-			log = append(log[:3], append([]storage.Message{junk}, log[3:]...)...)
-		}
-		if cf.adapt {
-			// a 0.1.4-style log: without the self-confirmation deals
-			var old []storage.Message
-			for _, m := range log {
-				if m.Event == "event_dkg_deal_confirm_received" && m.RecipientAddr == m.SenderAddr {
-					continue
-				}
-				old = append(old, m)
-			}
-			log = old
-		}
-		// ---- fresh hot nodes (new communication keys), same airgapped mnemonics ----
-		B := NewCluster(newEnvDir(c), cf.n, cf.t, tag)
-		newKeys := map[string][]byte{}
-		for i, u := range B.Users {
-			kp := userKey("reinit-" + u)
-			B.Nodes[i].KP = kp
-			B.Nodes[i].RestartInPlace()
-			newKeys[u] = kp.Pub
-		}
-		re, err := ctypes.GenerateReDKGMessage(log, newKeys)
+		B, re, err := startReinit(c, A, tag, cf.withJunk, cf.adapt)
 		if err != nil {
-			fail("reinit-file", "GenerateReDKGMessage failed: "+err.Error(), nil)
+			fail("reinit-file", err.Error(), nil)
 			A.Close()
-			B.Close()
-			continue
-		}
-		if cf.adapt {
-			if re, err = node.GetAdaptedReDKG(re); err != nil {
-				fail("reinit-file", "GetAdaptedReDKG failed: "+err.Error(), nil)
+			if B != nil {
+				B.Close()
 			}
+			continue
 		}
 		if sampleFile == nil {
 			sampleFile = re
-		}
-		data, _ := json.Marshal(re)
-		m := storage.Message{DkgRoundID: re.DKGID, Event: "reinit_dkg", Data: data, SenderAddr: B.Users[0]}
-		m.Signature = ed25519.Sign(B.Nodes[0].KP.Priv, data)
-		B.Round = re.DKGID
-		for _, nd := range B.Nodes {
-			nd.Rounds[B.Round] = true
-		}
-		if err := B.board().Send(m); err != nil {
-			panic(err)
 		}
 		B.RunToQuiescence(func(cands []int) int { return 0 }, nil)
 		rep := map[string]interface{}{"n": cf.n, "t": cf.t, "adapted": cf.adapt, "foreign_message_in_dump": cf.withJunk}
@@ -253,6 +214,55 @@ func scenarioC20(c *Ctx) {
 	// reinit histories on a single node against the model (fresh, twice, crafted, foreign embedded message)
 	w := NewWorld(3, 2, 1)
 	runCases(c, reinitCases(c, w, "C20"))
+}
+
+// startReinit: the board log of the finished cluster A becomes a reinit file (optionally with a
+// message of another round spliced in, optionally as a 0.1.4-style log through GetAdaptedReDKG);
+// a fresh cluster with the same mnemonics and new communication keys gets the reinit message posted.
+func startReinit(c *Ctx, A *Cluster, tag string, withJunk, adapt bool) (*Cluster, *ctypes.ReDKG, error) {
+	log, _ := A.board().GetMessages(0)
+	if withJunk {
+		junk := storage.Message{DkgRoundID: "some-other-round", Event: "event_sig_proposal_confirm_by_participant", Data: []byte(`{"ParticipantId":0}`), SenderAddr: A.Users[0], Offset: 3}
+		log = append(log[:3], append([]storage.Message{junk}, log[3:]...)...)
+	}
+	if adapt {
+		var old []storage.Message
+		for _, m := range log {
+			if m.Event == "event_dkg_deal_confirm_received" && m.RecipientAddr == m.SenderAddr {
+				continue
+			}
+			old = append(old, m)
+		}
+		log = old
+	}
+	B := NewCluster(newEnvDir(c), A.N, A.T, tag)
+	newKeys := map[string][]byte{}
+	for i, u := range B.Users {
+		kp := userKey("reinit-" + u)
+		B.Nodes[i].KP = kp
+		B.Nodes[i].RestartInPlace()
+		newKeys[u] = kp.Pub
+	}
+	re, err := ctypes.GenerateReDKGMessage(log, newKeys)
+	if err != nil {
+		return B, nil, fmt.Errorf("GenerateReDKGMessage failed: %w", err)
+	}
+	if adapt {
+		if re, err = node.GetAdaptedReDKG(re); err != nil {
+			return B, nil, fmt.Errorf("GetAdaptedReDKG failed: %w", err)
+		}
+	}
+	data, _ := json.Marshal(re)
+	m := storage.Message{DkgRoundID: re.DKGID, Event: "reinit_dkg", Data: data, SenderAddr: B.Users[0]}
+	m.Signature = ed25519.Sign(B.Nodes[0].KP.Priv, data)
+	B.Round = re.DKGID
+	for _, nd := range B.Nodes {
+		nd.Rounds[B.Round] = true
+	}
+	if err := B.board().Send(m); err != nil {
+		panic(err)
+	}
+	return B, re, nil
 }
 
 func hexToB64(h string) string { return h }
